@@ -686,4 +686,155 @@ Proof.
   destruct d; reflexivity.
 Qed.
 
+(* ---------- statements ---------- *)
+
+Definition with_operand (st : state) (o : operand_t) : state :=
+  mkState (unit_mode st) (first_row st) (last_row st) (first_column st) (last_column st)
+          (first_zone st) (last_zone st) o (name_l st) (name_kind st)
+          (colour st) (default st) (matrix st) (out st).
+
+Lemma run_matrix_tail st m h w rest :
+  name_kind st = KMatrix h w -> matrix st = Some m ->
+  exists st', run (matrix_tail C ++ rest) st = run rest st' /\
+    unit_mode st' = unit_mode st /\ default st' = default st /\
+    out st' = out st ++
+      [EMatrix (name_l st) (m_height m) (m_width m)
+         (get_colors C std (find_replace_none C (as_raw_matrix C std conv (unit_mode st) m)
+                              (match default st with Some d => d | None => black end)))].
+Proof.
+  intros Hk Hm.
+  destruct (color_matrix_light_sends (with_operand st OpMatrixLight) m h w Hk Hm) as (st' & E & U & D & O).
+  exists st'. split; [|split; [exact U|split; [exact D|exact O]]].
+  unfold matrix_tail. cbn [app run]. change (exec CEndMatrix st) with (Some st). cbv iota.
+  change (exec (COperand OpMatrixLight) st) with (Some (with_operand st OpMatrixLight)). cbv iota.
+  change (exec CColor (with_operand st OpMatrixLight))
+    with (color_matrix_light C std conv black (with_operand st OpMatrixLight)).
+  rewrite E. reflexivity.
+Qed.
+
+Lemma run_block l h w (ss : list stage) rest st :
+  0 <= h -> 0 <= w -> forallb (stage_ok C h w) ss = true ->
+  exists st', run (compile_stmt (SBlock l h w ss) ++ rest) st = run rest st' /\
+    unit_mode st' = unit_mode st /\ default st' = default st /\
+    out st' = out st ++
+      [EMatrix l h w (map Some (spec_matrix C set_tx black_tx (unit_mode st) h w ss (option_map std (default st))))].
+Proof.
+  intros Hh Hw Hok.
+  set (st0 := mkState (unit_mode st) (first_row st) (last_row st) (first_column st) (last_column st)
+                      (first_zone st) (last_zone st) (operand st) l (KMatrix h w)
+                      (colour st) (default st) (Some (new_from_constant C h w None)) (out st)).
+  assert (E0 : run (compile_stmt (SBlock l h w ss) ++ rest) st
+               = run (flat_map compile_stage ss ++ (matrix_tail C ++ rest)) st0).
+  { unfold compile_stmt. rewrite <- !app_assoc. reflexivity. }
+  destruct (run_stages h w ss st0 (new_from_constant C h w None) (matrix_tail C ++ rest))
+    as (st1 & m1 & E1 & (U1 & N1 & K1 & D1 & O1) & M1 & H1 & W1 & Wf1 & C1);
+    try reflexivity; [apply new_from_constant_wf; assumption|exact Hok|].
+  destruct (run_matrix_tail st1 m1 h w rest) as (st2 & E2 & U2 & D2 & O2); [rewrite K1; reflexivity|exact M1|].
+  exists st2. split; [rewrite E0, E1, E2; reflexivity|].
+  split; [rewrite U2, U1; reflexivity|]. split; [rewrite D2, D1; reflexivity|].
+  rewrite O2, O1, N1, H1, W1, U1, D1. cbn [st0 out name_l unit_mode default].
+  f_equal. f_equal. f_equal.
+  apply (transmitted_matrix h w); try assumption.
+  intros r c Hr Hc. rewrite (C1 r c Hr Hc). rewrite new_from_constant_cell by assumption. reflexivity.
+Qed.
+
+(* the one-line form is the block with the single stage *)
+Lemma inline_is_block l h w (s : stage) rest st :
+  run (compile_stmt (SInline l h w s) ++ rest) st = run (compile_stmt (SBlock l h w [s]) ++ rest) st.
+Proof.
+  unfold compile_stmt, compile_stage. cbn [flat_map]. rewrite <- !app_assoc. cbn [app]. rewrite <- !app_assoc.
+  reflexivity.
+Qed.
+
+Lemma py_round_index v : py_round v = index_of v.
+Proof. destruct v; reflexivity. Qed.
+
+Lemma param_16_id v : 0 <= index_of v <= 65535 -> param_16 v = index_of v.
+Proof. intros H. unfold param_16, clamp16. rewrite py_round_index. lia. Qed.
+
+Lemma param_16_succ v : not_tie v = true -> 0 <= index_of v + 1 <= 65535 ->
+  param_16 (num_succ v) = index_of v + 1.
+Proof.
+  intros Ht H. unfold param_16, clamp16. destruct v as [z|n d]; cbn [num_succ py_round index_of] in *.
+  - lia.
+  - rewrite round_succ; [lia|lia|]. cbn [not_tie] in Ht. apply negb_true_iff in Ht. apply Z.eqb_neq in Ht. exact Ht.
+Qed.
+
+Lemma run_zone l c a b rest st :
+  zone_ok a b = true ->
+  exists st', run (compile_stmt (SZone l c a b) ++ rest) st = run rest st' /\
+    unit_mode st' = unit_mode st /\ default st' = default st /\
+    out st' = out st ++ [EZone l (fst (spec_zone a b)) (snd (spec_zone a b)) (set_tx (unit_mode st) c)].
+Proof.
+  intros Hok. unfold zone_ok in Hok.
+  repeat (apply andb_true_iff in Hok; destruct Hok as [Hok ?]).
+  apply Z.leb_le in Hok. apply Z.leb_le in H0. apply Z.leb_le in H1. apply Z.leb_le in H2.
+  cbn [spec_zone fst snd] in *.
+  eexists. split; [reflexivity|]. cbn. split; [reflexivity|]. split; [reflexivity|].
+  f_equal. f_equal. f_equal.
+  - apply param_16_id. lia.
+  - destruct b as [y|]; apply param_16_succ; try assumption; lia.
+Qed.
+
+Definition embed (e : sevent C) : event C :=
+  match e with
+  | SESet l tx => ESet l tx
+  | SEZone l a b tx => EZone l a b tx
+  | SEMatrix l h w cells => EMatrix l h w (map Some cells)
+  end.
+
+(* Every script whose statements are inside the domain runs to its end and makes the
+   devices receive exactly the events the specification lists, in that order. *)
+Theorem script_meets_spec : forall (prog : list (stmt C)) st,
+  forallb (stmt_ok C) prog = true ->
+  exists st', run (compile prog) st = (st', true) /\
+    out st' = out st ++ map embed (spec_run C set_tx black_tx prog (unit_mode st) (option_map std (default st))).
+Proof.
+  induction prog as [|s prog IH]; intros st Hok.
+  - exists st. split; [reflexivity|]. cbn. rewrite app_nil_r. reflexivity.
+  - cbn [forallb] in Hok. apply andb_true_iff in Hok. destruct Hok as [Hs Hp].
+    unfold compile. cbn [flat_map]. fold (compile prog).
+    destruct s as [m|c|l c|l c a b|l h w s|l h w ss]; cbn [stmt_ok] in Hs.
+    + (* units *)
+      destruct (IH (mkState m (first_row st) (last_row st) (first_column st) (last_column st)
+                      (first_zone st) (last_zone st) (operand st) (name_l st) (name_kind st)
+                      (if match unit_mode st, m with
+                          | Logical, Logical | Raw, Raw | Rgb, Rgb => true | _, _ => false end
+                       then colour st else switch (unit_mode st) m (colour st))
+                      (default st) (matrix st) (out st)) Hp) as (st' & E & O).
+      exists st'. split; [exact E|exact O].
+    + (* set default *)
+      destruct (IH (mkState (unit_mode st) (first_row st) (last_row st) (first_column st) (last_column st)
+                      (first_zone st) (last_zone st) OpDefault (name_l st) (name_kind st) c
+                      (Some (as_raw_color C conv (unit_mode st) c)) (matrix st) (out st)) Hp) as (st' & E & O).
+      exists st'. split; [exact E|exact O].
+    + (* plain set *)
+      destruct (IH (mkState (unit_mode st) (first_row st) (last_row st) (first_column st) (last_column st)
+                      (first_zone st) (last_zone st) OpLight l KPlain c
+                      (default st) (matrix st) (out st ++ [ESet l (std (as_raw_color C conv (unit_mode st) c))])) Hp)
+        as (st' & E & O).
+      exists st'. split; [exact E|]. rewrite O. cbn [out unit_mode default spec_run map embed].
+      rewrite <- app_assoc. reflexivity.
+    + (* zone *)
+      destruct (run_zone l c a b (compile prog) st Hs) as (st1 & E1 & U1 & D1 & O1).
+      destruct (IH st1 Hp) as (st' & E & O).
+      exists st'. split; [rewrite E1; exact E|].
+      rewrite O, O1, U1, D1. cbn [spec_run map embed]. rewrite <- app_assoc. reflexivity.
+    + (* one-line matrix command *)
+      apply andb_true_iff in Hs. destruct Hs as [Hs Hst]. apply andb_true_iff in Hs. destruct Hs as [Hh Hw].
+      apply Z.leb_le in Hh. apply Z.leb_le in Hw.
+      destruct (run_block l h w [s] (compile prog) st Hh Hw) as (st1 & E1 & U1 & D1 & O1).
+      { cbn [forallb]. rewrite Hst. reflexivity. }
+      destruct (IH st1 Hp) as (st' & E & O).
+      exists st'. split; [rewrite inline_is_block, E1; exact E|].
+      rewrite O, O1, U1, D1. cbn [spec_run map embed]. rewrite <- app_assoc. reflexivity.
+    + (* block *)
+      apply andb_true_iff in Hs. destruct Hs as [Hs Hst]. apply andb_true_iff in Hs. destruct Hs as [Hh Hw].
+      apply Z.leb_le in Hh. apply Z.leb_le in Hw.
+      destruct (run_block l h w ss (compile prog) st Hh Hw Hst) as (st1 & E1 & U1 & D1 & O1).
+      destruct (IH st1 Hp) as (st' & E & O).
+      exists st'. split; [rewrite E1; exact E|].
+      rewrite O, O1, U1, D1. cbn [spec_run map embed]. rewrite <- app_assoc. reflexivity.
+Qed.
+
 End Proofs.
